@@ -21,6 +21,18 @@ LEVEL = "exploration"
 N_QUICK, N_THOROUGH = 6, 7
 
 
+def explicit_zeros(terms_of):
+    from collections import Counter
+
+    def f(child, n):
+        t = terms_of(child, n)
+        if not t:
+            return Counter({tuple(0 for _ in child.extra_parameters): 0})
+        return t
+
+    return f
+
+
 def check_form(acc: Acc, base, desc: Tuple, form, N: int, terms_of, payload: dict) -> bool:
     fid = forms.form_id(desc)
     kind = "+".join(str(d) for d in desc if not isinstance(d, int))
@@ -97,6 +109,16 @@ def check_rule(acc: Acc, base, N: int, strategies, with_paths: bool, terms_of=dw
     for desc, form in forms.derived_forms(base, empty):
         if check_form(acc, base, desc, form, N, terms_of, payload):
             acc.outcome((type(base.strategy).__name__, tuple(d for d in desc if not isinstance(d, int)), tuple(form.shifts()) if not isinstance(form, Exception) else None))
+    # the same forms (fresh objects: terms are cached) fed by providers that answer a size without
+    # objects with an explicit zero coefficient, which the library treats as equal to an empty
+    # counter (utils.equal_counters): what is read must not depend on the spelling of "nothing"
+    try:
+        fresh = base.strategy(base.comb_class)
+    except Exception:  # noqa: BLE001
+        fresh = None
+    if fresh is not None:
+        for desc, form in forms.derived_forms(fresh, empty):
+            check_form(acc, base, desc + ("zeros",), form, N, explicit_zeros(terms_of), dict(payload, zeros=True))
     if not with_paths:
         return
     for d0, f0 in forms.one_child_equivalences(base, empty):
